@@ -10,7 +10,7 @@ use crate::with_d;
 use serde::{Deserialize, Serialize};
 use std::time::Instant;
 
-pub const RULE: &str = "cases (matrix) = symmetric matrices of dimension 1..8: SPD (all C15 classes), indefinite (SPD minus a multiple of the identity, or with a negated row/column), exactly singular positive semi-definite small-integer Q Q^T with a zero LAST pivot scaled by a power of two (all Cholesky arithmetic exact => ZeroDet is required), semi-definite with an interior zero pivot, the 2x2 [[1,2],[2,1]] family, ill-conditioned Hilbert-like; stability tolerance None or 10^(-12..2). oracle: Ok => determinant != 0; required-ZeroDet class must give ZeroDet; with Some(tol): Ok => no NaN anywhere in the decomposition and the L_{2,1} distance between inverse*matrix and the identity, recomputed in exact rational arithmetic from the returned inverse, <= tol(1+1e-9) + rounding slack of the residual evaluation. cases (sample) = accepted graphs sampled with the stability test enabled at points containing 0, subnormal and 1-2^-53 coordinates: an Ok sample has a NaN-free decomposition meeting the same bound. non-trivial = the matrix is not (SPD with cond<=1e6), or the sample point has an exact-zero / extreme coordinate; distinct = distinct case encodings";
+pub const RULE: &str = "cases (matrix) = symmetric matrices of dimension 1..8: SPD (all C15 classes), indefinite (SPD minus a multiple of the identity, or with a negated row/column), exactly singular positive semi-definite small-integer Q Q^T with a zero LAST pivot scaled by a power of two (all Cholesky arithmetic exact => ZeroDet is required), semi-definite with an interior zero pivot, the 2x2 [[1,2],[2,1]] family, ill-conditioned Hilbert-like; stability tolerance None, 10^(-12..2), or an extreme of the type (+inf, f64::MAX, 5e-324, 0, -0, negative, NaN); power-of-four diagonal matrices whose residual is exactly 0. oracle: Ok => determinant != 0; required-ZeroDet class must give ZeroDet; with Some(tol): Ok => no NaN anywhere in the decomposition and the L_{2,1} distance between inverse*matrix and the identity, recomputed in exact rational arithmetic from the returned inverse, <= tol(1+1e-9) + rounding slack of the residual evaluation. cases (sample) = accepted graphs sampled with the stability test enabled at points containing 0, subnormal and 1-2^-53 coordinates: an Ok sample has a NaN-free decomposition meeting the same bound. non-trivial = the matrix is not (SPD with cond<=1e6), or the sample point has an exact-zero / extreme coordinate; distinct = distinct case encodings";
 
 #[derive(Clone, Debug, Serialize, Deserialize)]
 pub struct Case {
@@ -19,6 +19,9 @@ pub struct Case {
     /// the tolerance is +infinity (JSON cannot carry it inside `tol`)
     #[serde(default)]
     pub tol_inf: bool,
+    /// the tolerance is NaN
+    #[serde(default)]
+    pub tol_nan: bool,
     #[serde(default)]
     pub require_zero_det: bool,
     #[serde(default)]
@@ -30,10 +33,19 @@ pub fn gen_case(t: &mut Tape, tier: Tier) -> Option<Case> {
         0 => None,
         1 => Some(10f64.powf(t.uniform(-12.0, 2.0))),
         // every f64 is a legal tolerance: the extremes of the type
-        _ => Some(*t.pick(&[f64::INFINITY, f64::MAX, 1e300, 5e-324, 1e-300, 1.0])),
+        _ => Some(*t.pick(&[f64::INFINITY, f64::MAX, 1e300, 5e-324, 1e-300, 1.0, 0.0, -0.0, -1.0, -1e-300, f64::NAN, f64::NEG_INFINITY])),
     };
     let mut require = false;
-    let (a, class): (Mat, &'static str) = match t.below(8) {
+    let (a, class): (Mat, &'static str) = match t.below(9) {
+        8 => {
+            // power-of-two diagonal: every operation of the routine is exact, the residual is exactly 0
+            let n = t.range(1, 8);
+            let mut a = vec![vec![0.0; n]; n];
+            for i in 0..n {
+                a[i][i] = 4f64.powi(t.range(0, 20) as i32 - 10);
+            }
+            (a, "diag:powers-of-four(exact)")
+        }
         7 => {
             // SPD matrix at an extreme overall scale (power of two, exact): pivots and their product may under/overflow
             let (mut a, _) = c15::gen_spd(t, tier);
@@ -131,7 +143,12 @@ pub fn gen_case(t: &mut Tape, tier: Tier) -> Option<Case> {
         }
     };
     let tol_inf = tol == Some(f64::INFINITY);
-    Some(Case { a, tol: if tol_inf { None } else { tol }, tol_inf, require_zero_det: require, class: class.into() })
+    let tol_nan = tol.map(|x| x.is_nan()).unwrap_or(false);
+    let tol = match tol {
+        Some(x) if x == f64::NEG_INFINITY => Some(-f64::MAX),
+        other => other,
+    };
+    Some(Case { a, tol: if tol_inf || tol_nan { None } else { tol }, tol_inf, tol_nan, require_zero_det: require, class: class.into() })
 }
 
 fn has_nan(d: &Decomp) -> bool {
@@ -174,12 +191,12 @@ pub fn check_decomp_ok(a: &Mat, d: &Decomp, tol: Option<f64>, what: &str) -> Res
 }
 
 pub fn check(c: &Case, ctx: &mut Ctx) -> Result<(), Failure> {
-    let eff_tol = if c.tol_inf { Some(f64::INFINITY) } else { c.tol };
+    let eff_tol = if c.tol_inf { Some(f64::INFINITY) } else if c.tol_nan { Some(f64::NAN) } else { c.tol };
     let c = &Case { tol: eff_tol, ..c.clone() };
     let a = &c.a;
     let n = a.len();
-    if n == 0 || n > 8 || a.iter().any(|r| r.len() != n) || a.iter().flatten().any(|x| !x.is_finite()) || c.tol.map(|t| !(t > 0.0)).unwrap_or(false) {
-        fail!("bad-case", "not a finite square matrix of dimension 1..8 / bad tolerance");
+    if n == 0 || n > 8 || a.iter().any(|r| r.len() != n) || a.iter().flatten().any(|x| !x.is_finite()) {
+        fail!("bad-case", "not a finite square matrix of dimension 1..8");
     }
     for i in 0..n {
         for j in 0..n {
